@@ -78,15 +78,17 @@ def _strategy(dll):
     fd = dll == "j1939-22"
     own = st.builds(lambda t, kind, n: {"t": t, "kind": kind, "n": n}, st.sampled_from([0.0, 0.0, 0.001, 0.05, 0.3, 1.0]),
                     st.sampled_from(["rts", "rts", "rts_x", "bam"]), st.integers(61, 400) if fd else st.integers(9, 80))
-    return st.fixed_dictionaries({
-        "dll": st.just(dll),
-        "frames": st.lists(_frames(fd), min_size=1, max_size=60),
-        "own": st.lists(own, max_size=3),
-        "max_cmdt": st.sampled_from([1, 2, 255]),
-        "grants": st.lists(st.sampled_from([1, 2, 255]), min_size=1, max_size=2),
-        "eps": st.lists(st.sampled_from([0.0, 1e-5, 1e-3]), min_size=1, max_size=2),
-        "reply_lat": st.sampled_from([[0.001, 0.003], [0.02], [0.05, 0.1]]),
-    })
+    # (a tuple mapped to a dict rather than fixed_dictionaries: hypothesis.fuzz_one_input rejects every byte string
+    # for fixed_dictionaries with more than three keys in this Hypothesis version - see DESIGN.md 8)
+    keys = ("frames", "own", "max_cmdt", "grants", "eps", "reply_lat")
+    return st.tuples(
+        st.lists(_frames(fd), min_size=1, max_size=60),
+        st.lists(own, max_size=3),
+        st.sampled_from([1, 2, 255]),
+        st.lists(st.sampled_from([1, 2, 255]), min_size=1, max_size=2),
+        st.lists(st.sampled_from([0.0, 1e-5, 1e-3]), min_size=1, max_size=2),
+        st.sampled_from([[0.001, 0.003], [0.02], [0.05, 0.1]]),
+    ).map(lambda t: dict(zip(keys, t), dll=dll))
 
 
 class C07:
@@ -114,6 +116,57 @@ class C07:
 
     def examples(self, tier):
         return 3000 if tier == "quick" else 200000
+
+    def extra_engine(self, tier, seed, out):
+        """Second engine: coverage-guided fuzzing (atheris / libFuzzer) of the same property function through
+        hypothesis.fuzz_one_input, several independent campaigns in parallel (tools/fuzz_c07.py)."""
+        import os
+        import json
+        import shutil
+        import subprocess
+        import tempfile
+        from vlib import runner
+        here = os.path.dirname(os.path.dirname(os.path.abspath(__file__)))
+        deps = os.path.join(here, ".deps")
+        probe = subprocess.run([os.sys.executable, "-c", "import sys; sys.path.insert(0, %r); import atheris" % deps],
+                               capture_output=True, text=True)
+        if probe.returncode != 0:
+            return {"engine": "atheris", "available": False, "evaluations": 0,
+                    "note": "atheris not importable (run MANIFEST.setup_cmd); the Hypothesis engine alone decided this run"}
+        ncamp, runs = (8, 250) if tier == "quick" else (16, 20000)
+        work = tempfile.mkdtemp(prefix="c07fuzz_", dir=out if os.path.isdir(out) else None)
+
+        def one(i):
+            r = subprocess.run([os.sys.executable, os.path.join(here, "tools", "fuzz_c07.py"), os.path.join(work, "c%d" % i),
+                                str(runner.crc(seed, "C07-fuzz", i)), str(runs)], capture_output=True, text=True)
+            try:
+                return json.loads(r.stdout.strip().splitlines()[-1])
+            except Exception:
+                return {"error": (r.stdout + r.stderr)[-400:]}
+        try:
+            results = runner.run_tasks(one, list(range(ncamp)))
+        finally:
+            shutil.rmtree(work, ignore_errors=True)
+        failures = []
+        execs = cov = nontriv = 0
+        errors = []
+        for r in results:
+            if not r or "error" in r or "harness_error" in r:
+                errors.append((r or {}).get("error") or (r or {}).get("harness_error") or "no result")
+                continue
+            if r.get("rc") not in (0, None) and not r.get("crashes"):
+                errors.append("campaign exit code %r: %s" % (r.get("rc"), r.get("stderr_tail", "")[-200:]))
+            execs += r.get("execs") or 0
+            cov = max(cov, r.get("cov") or 0)
+            nontriv += r.get("nontrivial") or 0
+            for c in r.get("crashes", []):
+                failures.append((c["violation"]["bucket"], c["params"], c["violation"]))
+        info = {"engine": "atheris 3.x (libFuzzer) via hypothesis.fuzz_one_input, instrumented package j1939", "available": True,
+                "campaigns": ncamp, "runs_per_campaign": runs, "evaluations": execs, "max_edges_covered": cov,
+                "nontrivial_executions": nontriv, "failures": failures}
+        if errors:
+            info["campaign_errors"] = errors[:3]
+        return info
 
     def enumerate(self, tier):
         return []
